@@ -96,7 +96,7 @@ func discharge(c *Ctx, o *Obligation, dir string, idx int, tier string, seed int
 	t0 := time.Now()
 	file := filepath.Join(dir, fmt.Sprintf("o%05d.smt2", idx))
 	defer func() { o.TimeS = time.Since(t0).Seconds() }()
-	first, escal := 3, 20
+	first, escal := 3, 45
 	if tier == "thorough" {
 		first, escal = 10, 120
 	}
